@@ -18,7 +18,7 @@ func init() {
 		ID:    "C15",
 		Level: "exploration",
 		Rule: "cases = the C01 case list (systematic step-kind sequences x battery, comparison/logical shapes x filter documents, random ASTs on random / " +
-			"path-directed documents with a miss-biased perturbation); only failing pairs are judged; non-trivial = the failing step is not the first one or " +
+			"path-directed documents with a miss-biased perturbation) plus the accepted strings of the hostile generators with their AST recovered from the grammar's parse tree; only failing pairs are judged; non-trivial = the failing step is not the first one or " +
 			"several branches fail; distinct = distinct (path text, document, decode mode)",
 		Assumptions: []string{
 			"SPEC's failure events define 'a failure that really occurs at that step'; for multi-branch paths any candidate at the deepest failing depth is accepted (non-type preferred), as the property states",
@@ -27,13 +27,27 @@ func init() {
 		Plan: func(tier string, seed int64) *harness.Plan {
 			sys := newSysCases(tier)
 			nRand := size(tier, 200000, 3000000)
+			nStr := size(tier, 100000, 1500000)
+			var src *strSource
 			return &harness.Plan{
-				N:     sys.n() + nRand,
-				Setup: func(c *harness.Ctx) { hooksOn() },
+				N: sys.n() + nRand + nStr,
+				Setup: func(c *harness.Ctx) {
+					hooksOn()
+					src = newStrSource()
+				},
 				Run: func(c *harness.Ctx, k int) {
 					var d *diffCase
 					if k < sys.n() {
 						d = sys.get(k)
+					} else if k >= sys.n()+nRand {
+						if src.err != nil {
+							return
+						}
+						r := c.Rand()
+						var ok bool
+						if d, ok = stringCase(c, r, gen.New(r), src); !ok {
+							return
+						}
 					} else {
 						r := c.Rand()
 						g := gen.New(r)
